@@ -20,6 +20,7 @@ INT_CLASSES = {'Integer8': (True, 8), 'Integer16': (True, 16), 'Integer32': (Tru
                'UnsignedInteger64': (False, 64), 'Integer': None, 'UnsignedInteger': (False, None)}
 TNS = 'tns'
 XSI = 'http://www.w3.org/2001/XMLSchema-instance'
+XSD = 'http://www.w3.org/2001/XMLSchema'
 PROTOS = ('xml', 'soap11', 'json', 'yaml', 'msgpack', 'http')
 
 
@@ -104,11 +105,13 @@ class Wv(object):
     """a leaf value with its wire forms: `text` for XML / SOAP / HttpRpc (None: no text form), `doc` for
     JSON / YAML / MessagePack (NO: no document form), `nil` for an explicit null"""
 
-    def __init__(self, text=None, doc=NO, nil=False):
-        self.text, self.doc, self.nil = text, doc, nil
+    def __init__(self, text=None, doc=NO, nil=False, xsi=None):
+        # xsi: (namespace, type name) written as an xsi:type attribute on the XML / SOAP element
+        self.text, self.doc, self.nil, self.xsi = text, doc, nil, xsi
 
     def __repr__(self):
-        return 'Wv(%r, %r%s)' % (self.text, self.doc, ', nil=True' if self.nil else '')
+        return 'Wv(%r, %r%s%s)' % (self.text, self.doc, ', nil=True' if self.nil else '',
+                                   ', xsi=%r' % (self.xsi,) if self.xsi else '')
 NULL = Wv(None, None, nil=True)
 
 _NS = {}
@@ -135,10 +138,14 @@ def mk_type(expr):
 class Harness(object):
     """one generated service around the type under test, at every nesting position"""
 
-    def __init__(self, T, multi=None, array=None):
+    def __init__(self, T, multi=None, array=None, extra_types=(), xml_kwargs=None):
         from spyne import Application, rpc, ServiceBase, ComplexModel, Array, Unicode, XmlAttribute
         from spyne.model.complex import ComplexModelMeta
+        import spyne.model.primitive as P
         self.T = T
+        self.xml_kwargs = dict(xml_kwargs or {})
+        # types that only have to be known to the interface (targets of xsi:type)
+        known = [P.Unicode, P.Integer, P.Boolean, P.Decimal, P.Double, P.DateTime, P.Date, P.Time] + list(extra_types)
         self.calls = calls = []
         W = ComplexModelMeta('W', (ComplexModel,), {'__namespace__': TNS, '_type_info': [('v', T)]})
         WA = ComplexModelMeta('WA', (ComplexModel,), {'__namespace__': TNS, '_type_info': [('v', XmlAttribute(T))]})
@@ -147,6 +154,7 @@ class Harness(object):
         AT = array if array is not None else Array(T)
         WL = ComplexModelMeta('WL', (ComplexModel,), {'__namespace__': TNS, '_type_info': [('l', AT)]})
         self.item_tag = list(AT._type_info.keys())[0]
+        KN = ComplexModelMeta('KN', (ComplexModel,), {'__namespace__': TNS, '_type_info': [('k%d' % i, t) for i, t in enumerate(known)]})
 
         class S(ServiceBase):
             @rpc(T, _returns=Unicode)
@@ -176,6 +184,10 @@ class Harness(object):
             @rpc(WM, _returns=Unicode)
             def nmulti(ctx, x):
                 calls.append(('nmulti', None if x is None or x.v is None else list(x.v))); return 'ok'
+
+            @rpc(KN, _returns=Unicode)
+            def known_types(ctx, x):
+                calls.append(('known_types', x)); return 'ok'
         self.S = S
         self.apps = {}
 
@@ -188,8 +200,9 @@ class Harness(object):
         from spyne.protocol.msgpack import MessagePackDocument
         from spyne.protocol.http import HttpRpc
         if proto not in self.apps:
+            kw = self.xml_kwargs if proto in ('xml', 'soap11') else {}
             inp = {'xml': XmlDocument, 'soap11': Soap11, 'json': JsonDocument, 'yaml': YamlDocument,
-                   'msgpack': MessagePackDocument, 'http': HttpRpc}[proto](validator='soft')
+                   'msgpack': MessagePackDocument, 'http': HttpRpc}[proto](validator='soft', **kw)
             self.apps[proto] = Application([self.S], TNS, in_protocol=inp, out_protocol=JsonDocument())
         return self.apps[proto]
 
@@ -200,7 +213,7 @@ class Harness(object):
     def xml_body(self, meth, payload, soap):
         from lxml import etree
         ns = '{%s}' % TNS
-        root = etree.Element(ns + meth, nsmap={None: TNS, 'xsi': XSI})
+        root = etree.Element(ns + meth, nsmap={None: TNS, 'xsi': XSI, 'xs': XSD, 'tns0': TNS})
 
         def elem(parent, tag, v):
             e = etree.SubElement(parent, ns + tag)
@@ -208,6 +221,8 @@ class Harness(object):
                 e.set('{%s}nil' % XSI, 'true')
             else:
                 e.text = wire_text(v)
+            if isinstance(v, Wv) and v.xsi:
+                e.set('{%s}type' % XSI, '%s:%s' % ({XSD: 'xs', TNS: 'tns0'}[v.xsi[0]], v.xsi[1]))
             return e
 
         def leaf(parent, tag, p):
@@ -1058,7 +1073,8 @@ def same_native(a, b):
     except Exception:
         return False
 
-def expect(check, h, fam, tdesc, texpr, shape, proto, pos, payload, want, native=NOCHECK, strict=True, extra=None):
+def expect(check, h, fam, tdesc, texpr, shape, proto, pos, payload, want, native=NOCHECK, strict=True, extra=None,
+           allowed=None):
     """one request against the oracle.  strict: the canonical wire form of a logical request - accepted iff it
     conforms.  lenient (an alternative document form, e.g. a MessagePack bin string or a JSON number where
     Spyne itself writes text): it may be read as the value or refused, but never crash, never be accepted when
@@ -1079,6 +1095,12 @@ def expect(check, h, fam, tdesc, texpr, shape, proto, pos, payload, want, native
         if pos in ('arr', 'narr', 'multi', 'nmulti') and payload[0] == 'items' and len(payload[1]) == 1 and not isinstance(native, list):
             delivered = delivered[0] if isinstance(delivered, list) and len(delivered) == 1 else NOCHECK
         ok = same_native(delivered, native)
+    if ok and got == 'accept' and allowed is not None:
+        delivered = res[1]
+        if pos in ('arr', 'narr', 'multi', 'nmulti') and isinstance(delivered, list) and len(delivered) == 1:
+            delivered = delivered[0]
+        ok = any((delivered is a) or (a is not None and delivered is not None and type(delivered) is type(a) and same_native(delivered, a))
+                 for a in allowed)
     if not ok:
         rp = {'family': fam, 'type_expr': texpr, 'protocol': proto, 'position': pos, 'payload': repr(payload)}
         rp.update(extra or {})
@@ -1403,6 +1425,168 @@ def family_null_members(check, tier):
     check.sample({'family': 'null / absent object and array members', 'protocols': ['xml', 'soap11', 'json', 'yaml', 'msgpack']})
 
 
+# ------------------------------------------------------------------ round 2: decimal bounds, enum, xsi:type, nil x default
+def family_decimal_bounds(check, tier):
+    """Decimal range facets whose bounds are not binary fractions (0.1, 0.3, 19.99 ...): the value exactly ON the
+    bound and one unit in the last place beside it, sent as text (every protocol) and as a JSON / YAML / MessagePack
+    NUMBER.  Spyne reads such a number through its shortest text, so the number 0.3 is the decimal 0.3 and gets the
+    verdict the text '0.3' gets over XML - not the verdict of its binary expansion 0.29999999999999998889..."""
+    D = _dec.Decimal
+    rng = check.rng
+    bounds = ['0.1', '0.3', '0.7', '19.99', '-0.1', '1.005', '100', '0.000001', '2.675']
+    for _ in range(3 if tier == 'quick' else 25):
+        digits = rng.randint(1, 6)
+        bounds.append(str(D(rng.randint(-10 ** (digits + 2), 10 ** (digits + 2))).scaleb(-digits)))
+    if tier == 'quick':
+        bounds = bounds[:5] + rng.sample(bounds[5:], 3)
+    for b in bounds:
+        bd = D(b)
+        ulp = D(1).scaleb(min(bd.as_tuple().exponent, 0))
+        for facet in ('ge', 'gt', 'le', 'lt'):
+            texpr = 'Decimal(%s=D(%r))' % (facet, b)
+            h = Harness(mk_type(texpr))
+            for name, vd in (('on-bound', bd), ('just-below', bd - ulp), ('just-above', bd + ulp), ('just-above-finer', bd + ulp / 1000)):
+                conforms = {'ge': vd >= bd, 'gt': vd > bd, 'le': vd <= bd, 'lt': vd < bd}[facet]
+                text = format(vd, 'f')
+                forms = [('text', Wv(text, text))]
+                f = float(text)
+                if D(repr(f)) == vd:            # the float the sender's library writes for this decimal reads back as it
+                    forms.append(('number', Wv(None, f)))
+                if vd == vd.to_integral_value():
+                    forms.append(('integer-number', Wv(None, int(vd))))
+                for fname, v in forms:
+                    for proto in PROTOS:
+                        for pos in ('top', 'nested', 'arr', 'att'):
+                            payload = ('items', [v]) if pos == 'arr' else ('val', v)
+                            expect(check, h, 'decimal-bound', 'Decimal+' + facet, texpr, '%s|as-%s' % (name, fname), proto, pos,
+                                   payload, conforms, vd, True)
+    check.sample({'family': 'decimal bounds as numbers', 'bounds': bounds[:6], 'forms': ['text', 'number']})
+
+
+ENUM_EXPR = 'Enum("red", "green", "Blue", type_name="Color")'
+ENUM_HOSTILE = ['Value', 'Attributes', 'Annotations', 'customize', 'validate_string', 'validate_native', '__doc__', '__class__',
+                'mro', '__values__', '__type_name__', '__namespace__', '__init__', '__dict__', '__module__', 'Empty',
+                'get_type_name', 'is_default', '__orig__', '__extends__', 'Red', 'RED', 'red ', ' red', 'blue', '0', 'red\n',
+                'redgreen', '']
+
+def family_enum(check, tier):
+    """enumerated types: exactly the declared values are accepted, and what the user function receives IS one of
+    the declared members; literals that are Python attribute names of the enum class (Value, Attributes, customize,
+    dunder names ...), case variants and padded values are refused - at every position and in every protocol"""
+    rng = check.rng
+    T = mk_type(ENUM_EXPR)
+    members = [getattr(T, v) for v in T.__values__]
+    hostile = list(ENUM_HOSTILE)
+    names = [n for n in dir(T) if n not in T.__values__ and n not in hostile]
+    hostile += rng.sample(names, min(len(names), 6 if tier == 'quick' else 40))
+    h = Harness(T)
+    for lit in list(T.__values__) + hostile:
+        want = lit in T.__values__
+        v = Wv(lit, lit)
+        shape = 'declared' if want else ('python-attribute-name' if hasattr(T, lit) and lit else 'undeclared')
+        for proto in PROTOS:
+            for pos in ('top', 'nested', 'arr', 'att'):
+                if lit.strip() != lit and proto in ('xml', 'soap11') and pos == 'att':
+                    continue          # attribute value normalisation by the XML parser changes the literal
+                payload = ('items', [v]) if pos == 'arr' else ('val', v)
+                expect(check, h, 'enum', 'Enum', ENUM_EXPR, '%s|%s' % (shape, lit if not want else 'value'), proto, pos, payload,
+                       want, NOCHECK, True, allowed=[getattr(T, lit)] if want else members)
+    check.sample({'family': 'enum', 'declared': list(T.__values__), 'hostile': hostile[:10]})
+
+
+XSI_TYPES = [
+    # (declared type, sibling customisation registered in the interface, unrelated registered types, out-of-facet, conforming)
+    ('Unicode(max_len=3, pattern="[a-z]+")', 'Unicode(max_len=100, type_name="LooseStr")', ['boolean', 'integer'],
+     [('abcdef', 'abcdef'), ('ABC', 'ABC')], [('abc', 'abc')]),
+    ('Integer(ge=0, le=9)', 'Integer(ge=-1000, le=1000, type_name="LooseInt")', ['string', 'boolean', 'decimal'],
+     [('500', 500), ('-1', -1)], [('5', 5)]),
+    ('Integer8', 'Integer8(type_name="OtherByte")', ['integer', 'string'], [('300', 300), ('-129', -129)], [('5', 5)]),
+    ('Decimal(ge=0, le=10)', 'Decimal(ge=-100, le=100, type_name="LooseDec")', ['double', 'string'],
+     [('10.5', _dec.Decimal('10.5'))], [('1.5', _dec.Decimal('1.5'))]),
+    ('Double(le=5.0)', 'Double(type_name="LooseDbl")', ['decimal', 'string'], [('5.5', 5.5)], [('1.5', 1.5)]),
+    ('Unicode(values=["red", "green"])', 'Unicode(type_name="AnyStr2")', ['boolean'], [('blue', 'blue')], [('red', 'red')]),
+    ('Unicode(min_len=4)', 'Unicode(min_len=1, type_name="ShortStr")', ['integer'], [('abc', 'abc')], [('abcd', 'abcd')]),
+    ('DateTime(ge=datetime.datetime(2020, 1, 1, tzinfo=utc))', 'DateTime(type_name="AnyDt")', ['date', 'string'],
+     [('2019-06-01T00:00:00Z', None)], [('2021-06-01T00:00:00Z', None)]),
+    ('Date(ge=datetime.date(2020, 1, 1))', 'Date(type_name="AnyDate")', ['dateTime', 'string'],
+     [('2019-06-01', _dt.date(2019, 6, 1))], [('2020-06-01', _dt.date(2020, 6, 1))]),
+    ('Time(le=datetime.time(17))', 'Time(type_name="AnyTime")', ['string'], [('18:00:00', _dt.time(18))], [('12:00:00', _dt.time(12))]),
+    (ENUM_EXPR, 'Unicode(type_name="AnyStr3")', ['string'], [('Value', None), ('blue', None)], [('red', None)]),
+]
+
+def family_xsi_type(check, tier):
+    """XML / SOAP: an xsi:type attribute on an element of a customised primitive - naming the schema type it is
+    built on, another customisation of the same primitive, or an unrelated registered type - never changes which
+    facets apply: an out-of-facet value is refused exactly as without the attribute (and as over JSON); a conforming
+    value is either refused (the tag is not acceptable) or read as the DECLARED type"""
+    rng = check.rng
+    for texpr, sibexpr, unrelated, bad, good in XSI_TYPES:
+        T = mk_type(texpr)
+        sib = mk_type(sibexpr)
+        h = Harness(T, extra_types=[sib])
+        base = getattr(T, '__orig__', None) or T
+        kinds = [('base', (base.get_namespace() if base.get_namespace() != 'tns' else TNS, base.get_type_name())),
+                 ('sibling', (TNS, sib.get_type_name()))] + [('unrelated-' + u, (XSD, u)) for u in unrelated]
+        if texpr == ENUM_EXPR:
+            kinds = kinds[1:]                 # the enum's own name is its only schema type
+        tdesc = texpr.split('(')[0] + '+facets'
+        for kind, qn in kinds:
+            if qn[0] not in (XSD, TNS):
+                continue
+            for vals, conforming in ((bad, False), (good, True)):
+                for text, native in vals:
+                    v = Wv(text, NO, xsi=qn)
+                    for proto in ('xml', 'soap11'):
+                        for pos in ('top', 'nested', 'arr', 'narr', 'multi', 'nmulti'):
+                            payload = ('items', [v]) if pos in ('arr', 'narr', 'multi', 'nmulti') else ('val', v)
+                            expect(check, h, 'xsi-type', tdesc, texpr, 'xsi-%s|%s' % (kind, 'conforming' if conforming else 'out-of-facet'),
+                                   proto, pos, payload, conforming, NOCHECK if native is None else native, not conforming,
+                                   extra={'extra_types': [sibexpr]})
+            # the reference: the same out-of-facet values without the attribute, over XML and JSON
+            for text, native in bad:
+                for proto in ('xml', 'json'):
+                    expect(check, h, 'xsi-type', tdesc, texpr, 'no-xsi-type|out-of-facet', proto, 'top',
+                           ('val', Wv(text, native if isinstance(native, (int, float, str)) else text)), False, NOCHECK, True)
+    check.sample({'family': 'xsi:type on customised primitives', 'types': [x[0] for x in XSI_TYPES][:5],
+                  'kinds': ['base schema type', 'sibling customisation', 'unrelated type']})
+
+
+DEFAULT_TYPES = [('Integer', '5', 5), ('Unicode', '"dflt"', 'dflt'), ('Decimal', 'D("1.5")', _dec.Decimal('1.5')), ('Boolean', 'True', True),
+                 ('Double', '2.5', 2.5), ('Integer8', '7', 7), ('Date', 'datetime.date(2020, 1, 1)', _dt.date(2020, 1, 1)),
+                 ('DateTime', 'datetime.datetime(2020, 1, 1, tzinfo=utc)', d_(2020, 1, 1)), ('Unicode(min_len=2)', '"dflt"', 'dflt')]
+
+def family_null_default(check, tier):
+    """nullability does not depend on a declared default: an explicit null (xsi:nil, JSON null, YAML ~, MessagePack nil)
+    is accepted iff the type is nillable - with or without default=..., with XmlDocument(replace_null_with_default=)
+    True or False - and what arrives is None or the default, never something else; an absent member is accepted iff
+    min_occurs is 0.  Every protocol, top-level / nested / attribute / array item"""
+    rng = check.rng
+    types = DEFAULT_TYPES if tier != 'quick' else DEFAULT_TYPES[:4] + rng.sample(DEFAULT_TYPES[4:], 2)
+    for tbase, dexpr, dval in types:
+        for has_default in (True, False):
+            for nill in (True, False):
+                for mino in (0, 1):
+                    kw = 'nillable=%s, min_occurs=%d%s' % (nill, mino, ', default=%s' % dexpr if has_default else '')
+                    full = tbase + ('(' if '(' not in tbase else '.customize(') + kw + ')'
+                    allowed = [None, dval] if has_default else [None]
+                    tdesc = tbase.split('(')[0] + ('+default' if has_default else '')
+                    for repl in (True, False):
+                        h = Harness(mk_type(full), xml_kwargs={'replace_null_with_default': repl})
+                        protos = ('xml', 'soap11') if not repl else PROTOS
+                        ex = {'xml_kwargs': {'replace_null_with_default': repl}}
+                        for proto in protos:
+                            al = [None] if (proto in ('xml', 'soap11') and not repl) else allowed
+                            for pos in ('top', 'nested', 'att'):
+                                expect(check, h, 'null-default', tdesc, full, 'null|nillable=%s|replace=%s' % (nill, repl), proto, pos,
+                                       ('null',), nill, NOCHECK, True, extra=ex, allowed=al)
+                                expect(check, h, 'null-default', tdesc, full, 'absent|min_occurs=%d|replace=%s' % (mino, repl), proto, pos,
+                                       ('absent',), mino == 0, NOCHECK, True, extra=ex, allowed=allowed)
+                            if mino == 0:
+                                expect(check, h, 'null-default', tdesc, full, 'null-item|nillable=%s|replace=%s' % (nill, repl), proto, 'arr',
+                                       ('items', [NULL]), nill, NOCHECK, True, extra=ex, allowed=al)
+    check.sample({'family': 'null x default x replace_null_with_default', 'types': [t[0] for t in DEFAULT_TYPES[:5]]})
+
+
 def run(check):
     check.rule = ('generated one-argument services around each type under test (every fixed-width integer class, '
                   'arbitrary-size integers, Unicode, Decimal, Double, Boolean, DateTime, Date, Time, Duration, Uuid, Enum with '
@@ -1447,6 +1631,10 @@ def run(check):
     family_null(check, check.tier)
     family_array_occurs(check, check.tier)
     family_null_members(check, check.tier)
+    family_decimal_bounds(check, check.tier)
+    family_enum(check, check.tier)
+    family_xsi_type(check, check.tier)
+    family_null_default(check, check.tier)
     lib.flush_correspondences(check)
     return check.finish()
 
@@ -1458,7 +1646,8 @@ def replay(check, path):
     if 'type_expr' in rp and 'payload' in rp:
         # families forms / null / array-occurs: the type, the array and the request are expressions over ns()
         T = mk_type(rp['type_expr'])
-        h = Harness(T, array=mk_type(rp['array_expr']) if rp.get('array_expr') else None)
+        h = Harness(T, array=mk_type(rp['array_expr']) if rp.get('array_expr') else None,
+                    extra_types=[mk_type(e) for e in rp.get('extra_types', [])], xml_kwargs=rp.get('xml_kwargs'))
         payload = eval(rp['payload'], dict(ns()))
         print('now:', h.run(rp['protocol'], rp['position'], payload))
     elif 'protocol' in rp and 'class' in rp:
